@@ -44,3 +44,11 @@ CLAIMED["C08"] = dict(category=_MC,
          "each recorded step, every view (public shadow maps, core set, get_linked_policies, lookups, counts) and the authorizer's answers on a request battery.",
     note="complete for the 3-id pool / <=3 ids bound at the design level; conformance on a seeded sample (quick) or all (thorough) of 161k generated pairs plus random histories over 4 ids. "
          "Bodies are recognised by annotation+effect; their conditions are checked through authorization.")
+ENGINES[0]["serves_properties"].append("C11")
+CLAIMED["C11"] = dict(category=_MC,
+    text="Schema.tla defines inhabitation of schema types and ConformsEntity / ConformsRequest / context conformance as the conjunction of the property's requirement "
+         "classes. TLC builds every conformant datum of a schema family over the optional-component product and every single-fault mutant, checks on the model that the "
+         "mutation table is consistent (bases conform, faults are faults), and each datum is pushed through 9 entity entry points (from_entities, add, upsert, schema-built "
+         "stores, JSON value/str, add_from_json, Entity::from_json) or 4 request/context entry points; TLC re-derives each verdict from the recorded datum.",
+    note="one schema family (Sc1: required/optional attrs, nested record, sets, entity refs, enum type, tags, diamond membership, action groups); data universe as generated. "
+         "Trusts the harness's JSON-schema and entity-JSON renderers and TLC.")
